@@ -438,13 +438,20 @@ def parseP (env : Env) (p : PState) (known : Bool) (argv : List Str) : PState ×
     | .stop p1 o => (p1, o)
     | .go p1 rest => finishP env p1 known rest
 
-/-- `parser.print_help()`: runs `_preprocessing(args=[])` (parsing.py:381-383) -/
+/-- `parser.print_help()` (parsing.py:396-406): while the parser is not set up, the constructor's `config_path=`
+    files are applied first (like `parse_known_args` does — a missing file raises from here too), then
+    `_preprocessing(args=[])` -/
 def helpP (env : Env) (p : PState) : PState × Out :=
   if p.broken then (p, .unmodelled "parser left the fragment earlier")
+  else if p.preDone then (p, .unit)
   else
-    match preprocess env p [] with
-    | .stop p2 o => (p2, o)
-    | .ok p2 => (p2, .unit)
+    match loadFiles env (loadCtx p) p.fileDefs p.spec.cfgFiles with
+    | .foreign => ({ p with broken := true }, .unmodelled "constructor config file does not fit the layout")
+    | .missing defs => ({ p with fileDefs := defs }, .raise "FileNotFoundError".toList)
+    | .ok defs =>
+      match preprocess env { p with fileDefs := defs } [] with
+      | .stop p2 o => (p2, o)
+      | .ok p2 => (p2, .unit)
 
 /-- the FieldWrapper class attributes after a parse call: the temporary `--config_path` parser is CONSTRUCTED with
     this parser's settings (parsing.py:314-320) and `_preprocessing` re-asserts them (parsing.py:539-544); a call
@@ -456,7 +463,12 @@ def gAfterParse (env : Env) (G : Cfg) (p : PState) : Cfg :=
     | .ok _ => if p.spec.cfgPath || !p.preDone then p.spec.cfg else G
     | _ => G
 
-def gAfterHelp (G : Cfg) (p : PState) : Cfg := if p.broken || p.preDone then G else p.spec.cfg
+def gAfterHelp (env : Env) (G : Cfg) (p : PState) : Cfg :=
+  if p.broken || p.preDone then G
+  else
+    match loadFiles env (loadCtx p) p.fileDefs p.spec.cfgFiles with
+    | .ok _ => p.spec.cfg
+    | _ => G
 
 /-- `parser.add_arguments(cls, dest)` (parsing.py:218-279): appended to `_wrappers`; once `_preprocessing` ran
     nobody looks at new wrappers again until `_postprocessing` -/
@@ -508,7 +520,7 @@ def step (env : Env) (s : State) : Op → State × Out
   | .printHelp i =>
     match s.pool i with
     | none => (s, .unmodelled "no such parser")
-    | some p => let (p', o) := helpP env p; ({ G := gAfterHelp s.G p, pool := setPool s.pool i p' }, o)
+    | some p => let (p', o) := helpP env p; ({ G := gAfterHelp env s.G p, pool := setPool s.pool i p' }, o)
   | .formatHelp i =>
     -- `format_help` is not overridden: it prints whatever actions exist and changes nothing
     match s.pool i with
